@@ -795,3 +795,26 @@ Print Assumptions C14_example_flush_at_comp_enc.
 Print Assumptions C14_example_flush_at_comp_enc_auth.
 Print Assumptions C14_example_comp_enc_auth_values.
 Print Assumptions C14_example_repair_over_decompressor.
+
+(* ---------- Tie A, decision logic (tools/src2v2.py -> gen/Src2.v): compression writer: roll-over test and sizes; flush and finalize bodies ---------- *)
+From MLA Require SrcTie2b SrcTie2Events.
+Check SrcTie2b.cw_write_src.
+Theorem C14_tie_cw_write_src : ltac:(let t := type of SrcTie2b.cw_write_src in exact t).
+Proof. exact SrcTie2b.cw_write_src. Qed.
+Print Assumptions C14_tie_cw_write_src.
+Check SrcTie2Events.EV_comp_write_shape.
+Theorem C14_tie_EV_comp_write_shape : ltac:(let t := type of SrcTie2Events.EV_comp_write_shape in exact t).
+Proof. exact SrcTie2Events.EV_comp_write_shape. Qed.
+Print Assumptions C14_tie_EV_comp_write_shape.
+Check SrcTie2Events.EV_comp_flush_shape.
+Theorem C14_tie_EV_comp_flush_shape : ltac:(let t := type of SrcTie2Events.EV_comp_flush_shape in exact t).
+Proof. exact SrcTie2Events.EV_comp_flush_shape. Qed.
+Print Assumptions C14_tie_EV_comp_flush_shape.
+Check SrcTie2Events.EV_comp_finalize_shape.
+Theorem C14_tie_EV_comp_finalize_shape : ltac:(let t := type of SrcTie2Events.EV_comp_finalize_shape in exact t).
+Proof. exact SrcTie2Events.EV_comp_finalize_shape. Qed.
+Print Assumptions C14_tie_EV_comp_finalize_shape.
+Check SrcTie2Events.EV_fs_comp_read_shape.
+Theorem C14_tie_EV_fs_comp_read_shape : ltac:(let t := type of SrcTie2Events.EV_fs_comp_read_shape in exact t).
+Proof. exact SrcTie2Events.EV_fs_comp_read_shape. Qed.
+Print Assumptions C14_tie_EV_fs_comp_read_shape.
